@@ -21,7 +21,7 @@ let kind_name = function
   | SEND -> "<-" | SLASH -> "/" | SLASH_EQUALS -> "/=" | STRING -> "STRING" | STRUCT -> "STRUCT"
   | SWITCH -> "switch" | TRUE -> "TRUE" | NEWLINE -> "EOL" | IMPORT -> "IMPORT" | BREAK -> "BREAK"
   | CONTINUE -> "CONTINUE" | VAR -> "VAR" | IN -> "IN" | RANGE -> "RANGE" | FROM -> "FROM"
-  | AS -> "AS" | EMPTY -> ""
+  | AS -> "AS" | ILLEGAL -> "ILLEGAL" | EMPTY -> ""
 
 let err_name = function
   | EUnexpectedChar _ -> "UnexpectedChar" | EUnterminatedString -> "UnterminatedString"
